@@ -318,16 +318,17 @@ impl Handle for MatcherHandle {
             return false;
         }
 
-        // don't consider changes that don't have both the table + col in the matcher query
+        // don't consider changes to tables the matcher query doesn't read. The column is not
+        // looked at: a row can enter or leave the result through a change to a column the
+        // query never mentions (a new row only produces changes for its non-key columns, and
+        // versions may arrive out of order).
         if !self
             .inner
             .parsed
             .table_columns
-            .get(change.table.as_str())
-            .map(|cols| change.column.is_crsql_sentinel() || cols.contains(change.column.as_str()))
-            .unwrap_or_default()
+            .contains_key(change.table.as_str())
         {
-            trace!("could not match against parsed query table and columns");
+            trace!("could not match against parsed query tables");
             return false;
         }
 
